@@ -26,6 +26,7 @@ type c07Params struct {
 	ChanCap  int  // 0 = real capacity (32); 2 = capacity-scaled abstraction
 	Probe    bool // every handler calls the client's query API (Me, Connected, StateTracker, String) while it runs
 	Tracking bool // state tracking on; the backlog consists of JOINs of other users
+	OnConn   bool // the busy handler (gated / sending) is the CONNECTED handler, started by a welcome line, not the PRIVMSG handler
 	LongQuit bool // a user task writes a 5000-byte line and QUIT just before the cause (the socket buffer is mid-line at teardown)
 }
 
@@ -40,12 +41,15 @@ func (p c07Params) name() string {
 	if p.LongQuit {
 		n += "/longquit"
 	}
+	if p.OnConn {
+		n += "/on-connected"
+	}
 	return n
 }
 
 func (p c07Params) params() map[string]interface{} {
 	return map[string]interface{}{"inbound_backlog": p.Backlog, "segs": p.Segs, "mode": p.Mode, "emit": p.Emit, "stall": p.Stall,
-		"cause": p.Cause, "floodctl": p.FloodCtl, "user_send": p.UserSend, "chancap": p.ChanCap, "probe": p.Probe, "tracking": p.Tracking}
+		"cause": p.Cause, "floodctl": p.FloodCtl, "user_send": p.UserSend, "chancap": p.ChanCap, "probe": p.Probe, "tracking": p.Tracking, "on_connected": p.OnConn, "longquit": p.LongQuit}
 }
 
 func c07Scenario(p c07Params) *explore.Scenario {
@@ -74,8 +78,13 @@ func c07Scenario(p c07Params) *explore.Scenario {
 		}
 		c.HandleFunc("JOIN", func(conn *client.Conn, line *client.Line) { probe(conn) })
 		c.HandleBG("JOIN", client.HandlerFunc(func(conn *client.Conn, line *client.Line) { probe(conn) }))
-		c.HandleFunc("PRIVMSG", func(conn *client.Conn, line *client.Line) {
-			if line.Text() != "m0" {
+		busy := "PRIVMSG"
+		if p.OnConn {
+			busy = client.CONNECTED
+			c.HandleFunc("PRIVMSG", func(conn *client.Conn, line *client.Line) { probe(conn) })
+		}
+		c.HandleFunc(busy, func(conn *client.Conn, line *client.Line) {
+			if !p.OnConn && line.Text() != "m0" {
 				probe(conn)
 				return
 			}
@@ -120,6 +129,8 @@ func c07Scenario(p c07Params) *explore.Scenario {
 			for i := 0; i <= p.Backlog; i++ {
 				vc.Send(Privmsgs(i, 1))
 			}
+		case p.OnConn:
+			vc.Send(welcome + "\r\n" + Privmsgs(0, p.Backlog+1))
 		default:
 			vc.Send(Privmsgs(0, p.Backlog+1))
 		}
@@ -494,6 +505,14 @@ func c07Jobs(tier string) []Job {
 			add(c07Params{Backlog: bl, Segs: "one", Mode: "gated", Cause: cs, Probe: true, Tracking: true}, b1, 30+bl)
 		}
 		add(c07Params{Backlog: 3, Segs: "one", Mode: "gated", Cause: cs, Probe: true, Tracking: true, ChanCap: 2}, b2, 20)
+	}
+	// the busy handler is the CONNECTED handler (dispatched from inside the built-in 001 handler)
+	for _, cs := range causes {
+		add(c07Params{Backlog: 2, Segs: "one", Mode: "gated", Cause: cs, OnConn: true}, b2, 20)
+		for _, em := range []int{3, 7} {
+			add(c07Params{Backlog: 1, Segs: "one", Mode: "sending", Emit: em, Stall: true, Cause: cs, OnConn: true, ChanCap: 2}, b2, 20)
+		}
+		add(c07Params{Backlog: 1, Segs: "one", Mode: "sending", Emit: 40, Stall: true, Cause: cs, OnConn: true}, []explore.Budget{{0, 0}, {1, 0}}, 30)
 	}
 	// a long line and QUIT in the socket buffer when the teardown starts
 	for _, cs := range causes {
